@@ -86,6 +86,7 @@ def crc_term(eng, c):
         else:
             sym = z3.Int("crc!%d" % len(reg))
             eng.add_axiom(z3.And(sym >= 0, sym < 2 ** 32))
+            eng.ranges["crc!%d" % len(reg)] = (0, 2 ** 32 - 1)
         for k2, (sym2, items2) in reg.items():
             same = _seq_eq(eng, items, items2) if len(items) == len(items2) else False
             eng.add_axiom((sym == sym2) == (same if is_sym(same) else z3.BoolVal(same)))
@@ -163,9 +164,39 @@ def _neg(r):
     return (not r) if isinstance(r, bool) else z3.Not(r)
 
 
+def _groups(eng, xs):
+    """positions i where xs[i:i+n] are exactly the n little-endian bytes of one value v (Int-mode to_bytes): {i: (v, n)}"""
+    reg_ = eng.__dict__.get("byteof")
+    out = {}
+    if not reg_:
+        return out
+    i = 0
+    while i < len(xs):
+        x = xs[i]
+        inf = reg_.get(x.get_id()) if is_sym(x) else None
+        if inf is not None and inf[2] == 0 and i + inf[3] <= len(xs):
+            n, v = inf[3], inf[1]
+            ok = all(is_sym(xs[i + j]) and reg_.get(xs[i + j].get_id()) is not None
+                     and reg_[xs[i + j].get_id()][1] is v and reg_[xs[i + j].get_id()][2] == j for j in range(n))
+            if ok:
+                out[i] = (v, n)
+                i += n
+                continue
+        i += 1
+    return out
+
+
 def _seq_eq(eng, xs, ys):
     conds = []
-    for x, y in zip(xs, ys):
+    gx, gy = _groups(eng, xs), _groups(eng, ys)
+    skip = set()
+    for i, (v, n) in gx.items():
+        if i in gy and gy[i][1] == n:
+            conds.append(v == gy[i][0])  # whole byte groups: equal bytes <=> equal values (both within 0..256^n)
+            skip.update(range(i, i + n))
+    for k_, (x, y) in enumerate(zip(xs, ys)):
+        if k_ in skip:
+            continue
         tx, ty = type(x).__name__ == "Tok", type(y).__name__ == "Tok"
         if tx or ty:
             if not (tx and ty):
@@ -263,6 +294,8 @@ def getattr(eng, obj, attr):
     if isinstance(obj, type) or callable(obj) and not is_sym(obj):
         if hasattr(obj, attr):
             return eng.wrap_real(builtins.getattr(obj, attr), attr)
+    if isinstance(obj, SBytes) and attr == "nbytes":
+        return len(obj.items)
     if isinstance(obj, (dict, list, str, tuple, set, int, SBytes, SStr, SFile, Rope)) or is_sym(obj):
         return ("boundnative", obj, attr)
     if hasattr(obj, attr) and not is_sym(obj):
@@ -414,7 +447,11 @@ def to_bytes(eng, v, size, order="little", signed=False):
     else:
         if eng.branch(z3.Or(v < 0, v >= (1 << (8 * size)))):
             raise err("OverflowError")
-        items = [(v / (1 << (8 * i))) % 256 for i in range(size)]
+        iv = eng.ival(v)
+        if iv is not None and 0 <= iv[0] and iv[1] <= 255:
+            items = [v] + [z3.IntVal(0)] * (size - 1)  # fits one byte: no div/mod needed
+        else:
+            items = [(v / (1 << (8 * i))) % 256 for i in range(size)]
         reg_ = eng.__dict__.setdefault("byteof", {})
         for i, it in enumerate(items):
             reg_[it.get_id()] = (it, v, i, size)
